@@ -117,23 +117,17 @@ func genAcr(t *rapid.T, thorough bool) AcrCase {
 	if thorough {
 		o.BigTips = 150
 	}
-	// one case in fifteen has more states than a machine word has bits (63..80 states, e.g. countries
-	// or hosts as character states) on a tree with at least as many tips
-	many := rapid.IntRange(0, 14).Draw(t, "manystates") == 9
+	// one case in forty has more states than a machine word has bits (e.g. countries or hosts as
+	// character states): 60..66 states that occur on one tip each, plus 2..4 states shared by the
+	// other tips whose names sort last, so that the states the reconstruction works with sit around
+	// and beyond position 64 of the sorted state list
+	many := rapid.IntRange(0, 39).Draw(t, "manystates") == 9
 	if many {
-		o.MinTips, o.MaxTips, o.BigTips = 66, 110, 0
+		o.MinTips, o.MaxTips, o.BigTips = 90, 130, 0
 	}
 	m := gen.Tree(t, o)
 	k := rapid.IntRange(1, 6).Draw(t, "k")
 	names := append([]string(nil), rapid.Permutation(stateNamePool).Draw(t, "names")[:k]...)
-	if many {
-		k = rapid.IntRange(63, 80).Draw(t, "kmany")
-		names = nil
-		for i := 0; i < k; i++ {
-			names = append(names, fmt.Sprintf("s%02d", i))
-		}
-		names = rapid.Permutation(names).Draw(t, "manynames")
-	}
 	kk := k
 	if rapid.IntRange(0, 4).Draw(t, "fewer") == 0 {
 		kk = rapid.IntRange(1, k).Draw(t, "kused")
@@ -141,6 +135,48 @@ func genAcr(t *rapid.T, thorough bool) AcrCase {
 	st := make([]int, len(m.Tips()))
 	for i := range st {
 		st[i] = rapid.IntRange(0, kk-1).Draw(t, "st")
+	}
+	if many {
+		nf := rapid.IntRange(60, 66).Draw(t, "nfillers")
+		na := rapid.IntRange(2, 4).Draw(t, "nactive")
+		names = nil
+		for i := 0; i < nf; i++ {
+			names = append(names, fmt.Sprintf("f%02d", i))
+		}
+		for i := 0; i < na; i++ {
+			names = append(names, fmt.Sprintf("z%d", i))
+		}
+		pos := rapid.Permutation(func() []int {
+			l := make([]int, len(st))
+			for i := range l {
+				l[i] = i
+			}
+			return l
+		}()).Draw(t, "fillerpos")
+		for i := range st {
+			st[i] = nf + rapid.IntRange(0, na-1).Draw(t, "active")
+		}
+		for i := 0; i < nf; i++ {
+			st[pos[i]] = i
+		}
+		// the order of the names in the case is unrelated to their sorted order
+		perm := rapid.Permutation(func() []int {
+			l := make([]int, len(names))
+			for i := range l {
+				l[i] = i
+			}
+			return l
+		}()).Draw(t, "nameorder")
+		nn := make([]string, len(names))
+		inv := make([]int, len(names))
+		for newi, oldi := range perm {
+			nn[newi] = names[oldi]
+			inv[oldi] = newi
+		}
+		names = nn
+		for i := range st {
+			st[i] = inv[st[i]]
+		}
 	}
 	c := AcrCase{Tree: m, Names: names, States: st, Algo: rapid.SampledFrom([]string{"downpass", "deltran", "acctran"}).Draw(t, "algo"),
 		Random: rapid.IntRange(0, 3).Draw(t, "random") == 0, Seed: rapid.Int64Range(0, 1<<40).Draw(t, "seed"), Reroot: -1}
